@@ -4,4 +4,4 @@ set -e
 B=${COCLS_BASELINE_BUILD:-/repo/_build}
 if [ ! -f "$B/build.ninja" ] && [ ! -f "$B/Makefile" ]; then cmake -G Ninja -S /repo -B "$B" >/dev/null; fi
 cmake --build "$B" >/dev/null
-ctest --test-dir "$B" -j8 --timeout 900
+ctest --test-dir "$B" -j8 --timeout 900 --repeat until-pass:3
